@@ -1,6 +1,37 @@
 //! Codec modes: VarInt (C15), name-value pairs (C16).
 use crate::{arg, argn, bytes, nums, Args};
 use fastcgi_server::protocol::varint::VarInt;
+use std::io::{self, Read, Write};
+
+/// a reader that hands out at most `step` bytes per `read` call (what sockets, chained and buffered readers do)
+struct Dribble<'a> {
+    data: &'a [u8],
+    step: usize,
+}
+impl Read for Dribble<'_> {
+    fn read(&mut self, buf: &mut [u8]) -> io::Result<usize> {
+        let n = buf.len().min(self.step).min(self.data.len());
+        buf[..n].copy_from_slice(&self.data[..n]);
+        self.data = &self.data[n..];
+        Ok(n)
+    }
+}
+
+/// a writer that accepts at most `step` bytes per `write` call
+struct Trickle {
+    out: Vec<u8>,
+    step: usize,
+}
+impl Write for Trickle {
+    fn write(&mut self, buf: &[u8]) -> io::Result<usize> {
+        let n = buf.len().min(self.step);
+        self.out.extend_from_slice(&buf[..n]);
+        Ok(n)
+    }
+    fn flush(&mut self) -> io::Result<()> {
+        Ok(())
+    }
+}
 
 pub fn dispatch(mode: &str, a: &Args) -> Option<Args> {
     Some(match mode {
@@ -17,8 +48,19 @@ pub fn dispatch(mode: &str, a: &Args) -> Option<Args> {
 pub fn vi_read(a: &Args) -> Args {
     let d = bytes(&arg(a, 0));
     let mut cur = &d[..];
-    match VarInt::read(&mut cur) {
-        Ok(v) => vec![vec![1], vec![u128::from(u32::from(v))], nums(cur)],
+    let whole = VarInt::read(&mut cur).map(|v| (u32::from(v), cur.len()));
+    // the same bytes through readers that return them in pieces: same value, same number of bytes consumed
+    for step in [1usize, 2, 3] {
+        let mut r = Dribble { data: &d[..], step };
+        let piecewise = VarInt::read(&mut r).map(|v| (u32::from(v), r.data.len()));
+        match (&whole, &piecewise) {
+            (Ok(x), Ok(y)) => assert_eq!(x, y, "VarInt::read depends on how the reader splits the bytes"),
+            (Err(_), Err(_)) => {},
+            _ => panic!("VarInt::read succeeds or fails depending on how the reader splits the bytes"),
+        }
+    }
+    match whole {
+        Ok((v, _)) => vec![vec![1], vec![u128::from(v)], nums(cur)],
         Err(e) => {
             assert_eq!(e.kind(), std::io::ErrorKind::UnexpectedEof);
             vec![vec![0]]
@@ -35,6 +77,16 @@ pub fn vi_write(a: &Args) -> Args {
             let mut buf = Vec::new();
             let n = v.write(&mut buf).expect("Vec write");
             assert_eq!(n, buf.len(), "VarInt::write reported a wrong byte count");
+            let mut t = Trickle { out: Vec::new(), step: 1 };
+            assert_eq!(v.write(&mut t).expect("trickle write"), n);
+            assert_eq!(t.out, buf, "VarInt::write depends on the writer accepting everything at once");
+            let mut exact = vec![0u8; n];
+            assert_eq!(v.write(&mut exact[..]).expect("exact-size destination"), n);
+            assert_eq!(exact, buf);
+            if n > 0 {
+                let mut short = vec![0u8; n - 1];
+                assert!(v.write(&mut short[..]).is_err(), "VarInt::write into a too small destination must fail");
+            }
             vec![vec![1], nums(&buf)]
         },
     }
@@ -114,6 +166,20 @@ pub fn nv_write(a: &Args) -> Args {
     match nv::write((&n, &v), &mut buf) {
         Ok(cnt) => {
             assert_eq!(&buf[..3], &[0xAA; 3], "existing contents touched");
+            // the same pair through writers that accept the bytes in pieces, and into bounded destinations
+            for step in [1usize, 3, 100] {
+                let mut t = Trickle { out: Vec::new(), step };
+                let c2 = nv::write((&n, &v), &mut t).expect("short-writing writer");
+                assert_eq!(c2, cnt, "nv::write reports a different count for a short-writing writer");
+                assert_eq!(&t.out[..], &buf[3..], "nv::write loses bytes when the writer accepts them in pieces");
+            }
+            let mut exact = vec![0u8; cnt];
+            assert_eq!(nv::write((&n, &v), &mut exact[..]).expect("exact-size destination"), cnt);
+            assert_eq!(&exact[..], &buf[3..]);
+            if cnt > 0 {
+                let mut short = vec![0u8; cnt - 1];
+                assert!(nv::write((&n, &v), &mut short[..]).is_err(), "nv::write into a too small destination must fail");
+            }
             vec![vec![1], vec![cnt as u128], nums(&buf[3..])]
         },
         Err(_) => vec![vec![0]],
